@@ -78,7 +78,13 @@ def builtin_glue(needs_module: str) -> Callable[[InstallGlueFn], InstallGlueFn]:
 
     def decorate(fn: InstallGlueFn) -> InstallGlueFn:
         assert needs_module not in builtin_glue_pending
-        if needs_module in sys.modules and "sphinx" not in sys.modules:
+        if (
+            needs_module in sys.modules
+            and "sphinx" not in sys.modules
+            # If the module supplies its own glue, leave the choice between
+            # the two to add_glue_as_needed() so that only one of them runs
+            and not hasattr(sys.modules[needs_module], "_stackscope_install_glue_")
+        ):
             fn()
         else:
             builtin_glue_pending[needs_module] = fn
